@@ -82,11 +82,66 @@ def history(ev: List[int]) -> bool:
     return hx.holds((ev,), True, (trace,), "")
 
 
+PSTATES = ["none", "ready", "waiting_dwa", "disconnecting", "pre_ce"]
+ACTIONS = ["gone", "node_close", "nothing"]
+
+
+def readiness(s1: int, s2: int, victim: int, action: int) -> bool:
+    """
+    pre: 0 <= s1 < len(PSTATES) and 0 <= s2 < len(PSTATES) and 0 <= victim <= 1 and 0 <= action < len(ACTIONS)
+    post: _
+    """
+    hx.begin()
+    st = [PSTATES[hx.concretize_range(s1, 0, len(PSTATES))], PSTATES[hx.concretize_range(s2, 0, len(PSTATES))]]
+    v = hx.concretize_range(victim, 0, 2)
+    act = ACTIONS[hx.concretize_range(action, 0, len(ACTIONS))]
+    inputs = (s1, s2, victim, action)
+    try:
+        b = B.Bench(n_peers=2, apps=((4, "auth"),))
+        n, app = b.node, b.apps[0]
+        conns = [None, None]
+        for i in (0, 1):
+            if st[i] == "none":
+                continue
+            c, s = b.accept("10.0.1.%d" % (i + 1))
+            conns[i] = c
+            if st[i] == "pre_ce":
+                continue
+            b.inject(c, B.cer(B.PEER_HOSTS[i], hbh=10 + i, e2e=10 + i))
+            B.drain(c)
+            if st[i] == "waiting_dwa":
+                n.send_dwr(c)
+                B.drain(c)
+            elif st[i] == "disconnecting":
+                b.inject(c, B.dpr(B.PEER_HOSTS[i], 20 + i, 20 + i))
+                B.drain(c)
+        c = conns[v]
+        if c is not None and act != "nothing":
+            if act == "gone":
+                s = n.peer_sockets.get(c.ident)
+                s.inq.append(b"")
+                WORLD.settle(n)
+            else:
+                n.close_connection_socket(c, B.DISCONNECT_REASON_UNKNOWN)
+            conns[v] = None
+        ready_states = [cc is not None and cc.state in B.PEER_READY_STATES and cc.ident in n.connections for cc in conns]
+        anyconn = [p.connection is not None for p in b.peers]
+        obs = app.is_ready.is_set()
+    except Exception as e:
+        return hx.fail(inputs, "raised %s: %s" % (type(e).__name__, str(e)[:80]))
+    if any(ready_states):
+        return hx.check(inputs, (obs,), (True,), "a configured peer has a ready connection (READY or awaiting a DWA) but the application reports not ready")
+    if not any(anyconn):
+        return hx.check(inputs, (obs,), (False,), "no configured peer has a connection but the application reports ready")
+    return hx.holds(inputs, True, (obs,), "")
+
+
 def specs(tier, seed, carve):
     import random
     q = tier == "quick"
     rnd = random.Random(seed)
-    out = []
+    out = [dict(id="readiness", fn="readiness", params={}, timeout=600,
+                bound="2 peers configured for one application, each in {no connection, ready, awaiting DWA, disconnecting, pre-CE}; then one of them loses its connection (peer gone / node-initiated close / nothing)")]
     ne = len(H.EVENTS)
     for init in ("fresh", "ready_inbound", "ready_outbound"):
         out.append(dict(id="history/%s/d2" % init, fn="history", params={"init": init, "depth": 2, "prefix": []}, timeout=600,
